@@ -2,7 +2,7 @@
   VotelibModel.Score — the score (cardinal) family, code-shaped:
     convert.py  ScoreToSimpleVotes L82-252 (corrected_scores, aggregate, _correct_candidate_scores, _subtract_lowest L28-39)
     util.py     exact_mean L163-168; statistics.median_low; builtins sum / min
-    cardinal.py ScoreVoting L27-75, MajorityJudgment L78-252, STAR L255-370 (run-off by condorcet.Schulze L262-313 over
+    cardinal.py ScoreVoting L27-75, MajorityJudgment L78-252, STAR L255-379 (run-off by condorcet.Schulze L262-313 over
                 convert.ScoreToRankedVotes L433-486 and RankedToCondorcetVotes L385-429),
                 AllocatedScoreDistributor L373-560 / AllocatedScoreSelector L563-586
   and the defining computations (`…Spec`) they are proved equal to in VotelibProofs/Props/C12.lean.
@@ -346,19 +346,47 @@ def schulzeScores (counts : PairCounts) : Votes :=
 /-- `Schulze.evaluate` (condorcet.py L269-289) -/
 def schulze (counts : PairCounts) (n : Nat) : List Slot := getNBest (schulzeScores counts) n
 
-/-- the run-off input of `STAR.evaluate` (cardinal.py L353-369): pairwise counts among the run-off members -/
-def starRunoff (addedCount : Nat) (addedFraction : Rat) (cfg : Cfg) (votes : SProfile) (n : Nat) : Except Err PairCounts := do
-  let agg ← convert { cfg with fn := .sum } votes
-  let size : Int := (n : Int) + addedCount + Py.pyCeil (addedFraction * ((n : Nat) : Rat))
-  let members := Appr.slotCands (getNBest agg size.toNat)      -- tie objects never equal a candidate (L368)
-  let unscored : Option Rat := match cfg.unscored with
-    | .value u => some u
-    | _ => none
-  pure ((pairCounts unscored votes).filter (fun p => members.contains p.1.1 && members.contains p.1.2))
+/-- the run-off size and the unscored value `STAR.evaluate` works with (cardinal.py L353-357, L323-325) -/
+def starSize (addedCount : Nat) (addedFraction : Rat) (n : Nat) : Nat :=
+  ((n : Int) + addedCount + Py.pyCeil (addedFraction * ((n : Nat) : Rat))).toNat
 
-/-- `STAR.evaluate` (cardinal.py L343-370) with the default Schulze run-off -/
+def starUnscored (cfg : Cfg) : Option Rat :=
+  match cfg.unscored with
+  | .value u => some u
+  | _ => none
+
+/-- `members.extend(cand for cand in tied if cand not in members)` for one place of the run-off selection
+    (cardinal.py L361-367): a candidate, or all members of a tie object in iteration order -/
+def extendMembers (ms : List Cand) : Slot → List Cand
+  | Slot.cand c => if ms.contains c then ms else ms ++ [c]
+  | Slot.tie T => (Appr.sortDedup T).foldl (fun ms c => if ms.contains c then ms else ms ++ [c]) ms
+
+/-- the run-off members: candidates tied at the boundary all enter (cardinal.py L361-367) -/
+def starMembers (slots : List Slot) : List Cand := slots.foldl extendMembers []
+
+/-- every ordered pair of run-off members, a pair nobody ranked counting 0 (cardinal.py L374-377) -/
+def memberPairs (all : PairCounts) (members : List Cand) : PairCounts :=
+  members.flatMap (fun c1 => (members.filter (fun c2 => c1 != c2)).map (fun c2 => ((c1, c2), getPair all c1 c2)))
+
+/-- members and run-off table of `STAR.evaluate` (cardinal.py L352-377) -/
+def starRunoff (addedCount : Nat) (addedFraction : Rat) (cfg : Cfg) (votes : SProfile) (n : Nat) :
+    Except Err (List Cand × PairCounts) := do
+  let agg ← convert { cfg with fn := .sum } votes
+  let members := starMembers (getNBest agg (starSize addedCount addedFraction n))
+  pure (members, memberPairs (pairCounts (starUnscored cfg) votes) members)
+
+/-- `STAR.evaluate` (cardinal.py L343-378) with the default Schulze run-off -/
 def star (addedCount : Nat) (addedFraction : Rat) (cfg : Cfg) (votes : SProfile) (n : Nat) : Except Err (List Slot) := do
-  let pairwin ← starRunoff addedCount addedFraction cfg votes n
+  let r ← starRunoff addedCount addedFraction cfg votes n
+  if r.1.length ≤ 1 then pure ((r.1.take n).map Slot.cand)       -- L368-369
+  else pure (schulze r.2 n)
+
+/-- `STAR.evaluate` as it was BEFORE fix commit 03ef346 (kept only to state what the fix repaired): tie objects of the
+    run-off selection never equal a candidate, and only pairwise entries somebody expressed reach the evaluator -/
+def starPreFix (addedCount : Nat) (addedFraction : Rat) (cfg : Cfg) (votes : SProfile) (n : Nat) : Except Err (List Slot) := do
+  let agg ← convert { cfg with fn := .sum } votes
+  let members := Appr.slotCands (getNBest agg (starSize addedCount addedFraction n))
+  let pairwin := (pairCounts (starUnscored cfg) votes).filter (fun p => members.contains p.1.1 && members.contains p.1.2)
   pure (schulze pairwin n)
 
 /-! ### Allocated score -/
